@@ -10,10 +10,17 @@
 open Model
 open Util
 
+(* errno values (Linux) carried by a failing call; the model does not look at them *)
+let errno_code = function
+  | "EIO" -> 5 | "EINTR" -> 4 | "EAGAIN" -> 11 | "EBADF" -> 9 | "ENOSPC" -> 28 | "EPIPE" -> 32
+  | "EACCES" -> 13 | "EMFILE" -> 24 | "ENOENT" -> 2 | "EISDIR" -> 21 | "EFBIG" -> 27 | "EDQUOT" -> 122
+  | "EINVAL" -> 22 | "ENOMEM" -> 12 | "0" -> 0 | _ -> 5
+
 let parse_sched (s : string) : xfer list =
   if s = "-" then [] else
   List.concat_map (fun it ->
-      if it = "E" then [Err] else
+      if it = "E" then [Err (z_of_int 5)]
+      else if it.[0] = 'E' then [Err (z_of_int (errno_code (String.sub it 2 (String.length it - 2))))] else
       match String.index_opt it '*' with
       | Some i ->
         let n = z_of_string (String.sub it 0 i)
